@@ -333,7 +333,7 @@ class Run:
             "coverage": cov, "assumptions": self.assumptions, "wall_s": round(wall, 2),
             "violations": len(self.violations),
         }
-        if not self.replay:
+        if not self.replay and not os.environ.get("VERIF_NO_EVIDENCE"):
             os.makedirs(EVIDENCE_DIR, exist_ok=True)
             with open(os.path.join(EVIDENCE_DIR, f"{self.prop}.json"), "w") as f:
                 json.dump(ev, f, indent=1)
